@@ -370,9 +370,12 @@ func c02LimitRefusal(c *core.C) {
 	r := c.R
 	n := 6 + r.Intn(6)
 	kind := []string{"max-facts", "max-iterations"}[r.Intn(2)]
+	if c.Idx/5%4 == 0 {
+		kind = "max-facts"
+	}
 	heavy := ast.Block{Rules: []ast.Rule{{Head: ast.P("pair", vX, vY), Body: []ast.Pred{ast.P("p", vX), ast.P("p", vY)}}}}
 	maxFacts := n + n*n/2
-	if c.Idx/5%3 != 0 {
+	if c.Idx/5%8 != 4 {
 		maxFacts = n + n*n - 1 // one fact short of the least model: a handful of facts of lee-way would be enough
 	}
 	opt := biscuit.WithWorldOptions(datalog.WithMaxFacts(maxFacts), datalog.WithMaxIterations(1000), datalog.WithMaxDuration(60*time.Second))
@@ -419,6 +422,7 @@ func c02LimitRefusal(c *core.C) {
 		{},
 		// the parent's own facts once more (a block's facts must not buy lee-way under the fact limit)
 		{Facts: append(factsP(n), heavy.Facts...)},
+		{Facts: append(append(factsP(n), heavy.Facts...), ast.P("harmless", ast.Int(2)))},
 	}
 	// blocks made of failing checks only: whatever their number, one more refusal cannot add up to an acceptance
 	// (255 + the parent's one failing check = 256, 65535 + 1 = 65536)
